@@ -28,7 +28,7 @@ subprocess.check_call(['git', '-C', '/repo', 'worktree', 'add', '--detach', wt, 
 res = {'patch': patch, 'checks': {}}
 try:
     subprocess.check_call(['git', '-C', wt, 'apply', patch])
-    env = dict(os.environ, VERIF_REPO=wt)
+    env = dict(os.environ, VERIF_REPO=wt, VERIF_EVIDENCE_DIR='/tmp/mut_evidence/%s' % os.path.basename(wt), VERIF_REPLAY_DIR='/tmp/mut_replays/%s' % os.path.basename(wt))
     if a.demo and os.path.exists(os.path.join(os.path.dirname(patch), 'demo.py')):
         demo = os.path.join(os.path.dirname(patch), 'demo.py')
         p = subprocess.run(['timeout', '-k', '5', '300', '/venv/bin/python', demo, wt], stdout=subprocess.PIPE, stderr=subprocess.STDOUT, cwd='/tmp')
